@@ -91,7 +91,7 @@ func c10Configs(run *vfRun, w *vfWorld) []c10Cfg {
 	var out []c10Cfg
 	add := func(store, name string, heavy bool, label string, host, path string, https bool, flags ...string) {
 		fl := append([]string{"--session-store-type=" + store, "--cookie-name=" + name}, flags...)
-		if store == "redis" {
+		if store == "redis" && !strings.Contains(strings.Join(flags, " "), "--redis-use-") {
 			fl = append(fl, "--redis-connection-url="+w.RedisURL())
 		}
 		if host == "" {
@@ -157,6 +157,9 @@ func c10Configs(run *vfRun, w *vfWorld) []c10Cfg {
 	for _, nm := range []string{c10Name(rng, 1), c10Name(rng, 255), n256, "my+cookie"} {
 		add("redis", nm, false, "name", "", "", false)
 	}
+	// the Cluster and Sentinel clients (own builders and, for the cluster, an own wrapper type in pkg/sessions/redis)
+	add("redis", "_oauth2_proxy", true, "cluster-client", "", "", false, w.RedisModeFlags("cluster")...)
+	add("redis", "_oauth2_proxy", true, "sentinel-client", "", "", false, w.RedisModeFlags("sentinel")...)
 	add("redis", "_oauth2_proxy", false, "domain+path", "proxy.example.test", "/app/x", false, "--cookie-domain=example.test", "--cookie-path=/app/")
 	return out
 }
